@@ -14,7 +14,7 @@ func init() {
 		Level: "Structural necessary conditions of replicated durability, decided on every path of the named functions: a replicated write is acknowledged only with the result of commit and local apply (the value received from the commit channel, delivered with the final apply error); " +
 			"the raft Ready loop persists, syncs and publishes before a non-leader sends and before Advance, the early send is reserved for the leader and the leader flag follows every soft-state change; entries are saved before hard state and snapshot under the storage lock; " +
 			"log truncation is reachable only from the committed clear command and the size guard, with an index taken from the stored snapshot; the snapshot index is frozen while the memtable is swapped. " +
-			"NOT decided: leader election, catch-up, quorum arithmetic, any behaviour involving more than one process or fault sequences.",
+			"the index up to which the replication log is cut is the minimum match index over every member the leader knows (no member is skipped); NOT decided: leader election, catch-up, quorum arithmetic, any behaviour involving more than one process or fault sequences.",
 		Assumptions: commonAssumptions,
 		Technique:   "static analysis: must-precede / only-via-edge cuts on go/cfg regions (select-case body), defer-argument staleness, who-may-call and definition-provenance checks",
 		Rules:       "C05.R1 R2 R3 R4 R5 R6",
